@@ -56,7 +56,12 @@ func makeURLKey(u *url.URL) string {
 	}
 	// RFC 3986 §6.2.2.3: Path normalization (dot-segment removal) is handled by
 	// [url.URL.ResolveReference], which uses the RFC 3986 §5.2.4 algorithm.
-	base, _ := url.Parse(u.Scheme + "://" + u.Host)
+	base, err := url.Parse(u.Scheme + "://" + u.Host)
+	if err != nil || base == nil {
+		// Not an absolute URL (e.g. no scheme); the upstream round tripper
+		// rejects such requests, so the key only has to be well-defined.
+		return u.String()
+	}
 	normalized := base.ResolveReference(u)
 
 	// RFC 3986 §6.2.2.1: Scheme is lowercased (already done by [url.Parse]).
